@@ -38,8 +38,7 @@ def unlessSrc (c : Bytes) (A : List Item) (w1 w3 : Ws) : List Item :=
 
     Side condition `h1`, `h2`: the two sources contain no newline. Errors carry the line of the token they
     come from, and `A` stands after `B` in the second source: when `B` contains a newline an error inside
-    `A` is reported one line further down by the `unless` form (`dual_lines_differ` below; the outputs
-    are still the same). -/
+    `A` is reported one line further down by the `unless` form (`dual_lines_differ` below). -/
 theorem if_else_unless_dual_source (P : Prims) (O : OutPrims) (cfg : Cfg) (fs : FS) (fuel : Nat) (line : Nat) (env : Env)
     (c : Bytes) (A B : List Item) (w1 w2 w3 w4 w5 w6 : Ws)
     (hg : GoodDelims (Delims.ofList cfg.delims))
